@@ -361,23 +361,23 @@ def sym(w, P, refs):
 
 
 def placeholders(w, P, ui, side, need_free_side=None):
-    """References to placeholders sitting in lists other than (ui, side).  Small universes: at most one from an
-    inlet list and one from an outlet list, taken from the nearest following unit (cyclically) that has one."""
+    """References to placeholders sitting in lists other than (ui, side).  Small universes: one only - from the
+    nearest following unit (cyclically), a list of the same side preferred."""
     ids = {id(o) for o in w.items(ui, side)}
-    out = []; seen = set(); got = set()
+    out = []; seen = set()
     n = len(w.units)
-    order = [((ui + d) % n, sd) for d in (list(range(1, n)) + [0]) for sd in (0, 1)] if P['small'] else \
-            [(vj, sd) for vj in range(n) for sd in (0, 1)]
+    if P['small']:
+        order = [((ui + d) % n, sd) for sd in (side, 1 - side) for d in (list(range(1, n)) + [0])]
+    else:
+        order = [(vj, sd) for vj in range(n) for sd in (0, 1)]
     for vj, sd in order:
         if (vj, sd) == (ui, side): continue
-        if P['small'] and sd in got: continue
         for i, o in enumerate(w.items(vj, sd)):
             if not is_ph(o) or id(o) in ids or id(o) in seen: continue
             if need_free_side is not None and ptr(o, need_free_side) is not None: continue
             seen.add(id(o))
             out.append(['p', vj, sd, i])
-            if P['small']:
-                got.add(sd); break
+            if P['small']: return out
     return out
 
 
@@ -566,7 +566,7 @@ def pick_op(ch, w, P):
         ui, sd = pick(ch, 'L', w.lists)
         n = len(w.lst(ui, sd))
         if small:
-            a, b = pick(ch, 'span', lambda: [[0, n]] + ([[0, 1]] if n >= 2 else []))
+            a, b = 0, n
         else:
             a = ch.int('a', 0, n); b = ch.int('b', a, n)
             if ch.bool('full'): a, b = 0, n
@@ -577,16 +577,15 @@ def pick_op(ch, w, P):
                 kmax = w.nominal(ui, sd)
         else:
             kmax = 2 if small else 3
-        if small and (a, b) != (0, n): kmax = min(kmax, 1)
         k = ch.int('k', 0, max(0, kmax))
         xs = []
         for j in range(k):
             def cands():
                 c = [r for r in assignable(w, ui, sd, P, ph=not small) if r is None or r not in xs]
-                if small:   # real streams in ascending order, at most one None
-                    last = max([r[1] for r in xs if r is not None], default=-1)
-                    c = [r for r in c if (r is None and None not in xs) or (r is not None and r[1] > last)]
-                    c = sym(w, P, c)
+                if small and xs:   # small alphabet: the second stream is the candidate following the first
+                    full = assignable(w, ui, sd, P, ph=False)
+                    j = full.index(xs[-1])
+                    c = [full[(j + 1) % len(full)]] if len(full) > 1 else []
                 return c
             if not cands(): break
             xs.append(pick(ch, 'x', cands))
@@ -616,7 +615,7 @@ def pick_op(ch, w, P):
         ui, sd = pick(ch, 'L', lambda: nonempty_lists(w))
         i = ch.int('i', 0, len(w.lst(ui, sd)) - 1)
         if kind == 'replace':
-            x = pick(ch, 'x', lambda: assignable(w, ui, sd, P, ph=not small))
+            x = pick(ch, 'x', lambda: assignable(w, ui, sd, P, none=not small, ph=not small))
             return ['replace', ui, sd, i, x]
         return [kind, ui, sd, i]
     if kind in ('clear', 'empty'):
@@ -625,12 +624,14 @@ def pick_op(ch, w, P):
     if kind == 'sdisc':
         def refs():
             r = sym(w, P, [['s', k] for k in range(len(w.reals))])
-            seen = set()
+            seen = set(); got = set()
             for vj, sd in w.lists():
+                if small and sd in got: continue
                 for i, o in enumerate(w.items(vj, sd)):
                     if is_ph(o) and id(o) not in seen:
                         seen.add(id(o)); r.append(['p', vj, sd, i])
-                        if small: break
+                        if small:
+                            got.add(sd); break
             return r
         x = pick(ch, 'x', refs)
         which = pick(ch, 'which', ['source', 'sink', 'both'])
@@ -910,30 +911,41 @@ def run_history(ch, ctx):
     check_world(ctx, w, 'construct', 'initial')
     w.track_moves()
     risky = ch.bool('risky')
-    P = {'small': small, 'risky': risky}
+    w.P = {'small': small, 'risky': risky}
+    w.layout = layout
     nsteps = ch.int('nsteps', 0, 50)
     for step in range(nsteps):
-        op = pick_op(ch, w, P)
-        tag = known_region(w, op)
-        if tag is not None and not risky:
-            for attempt in range(3):
-                ctx.cell('avoided:' + tag)
-                op = pick_op(ch, w, P)
-                tag = known_region(w, op)
-                if tag is None: break
-            else:
-                continue
-        ctx.cell('op:' + op[0])
-        ucls = w.cls[op[1]] if len(op) > 1 and isinstance(op[1], int) and op[0] not in ('reconnect', 'save') else None
-        site, region = apply_op(ctx, w, op)
-        w.descr.append([op[0], ucls, region])
-        w.discover()
-        if step >= getattr(ch, 'verified_steps', 0):      # (exhaustive engine: the prefix was checked as its own sequence)
-            check_world(ctx, w, site, region)
-        w.track_moves()
-    if w.moved:
-        ctx.nontriv([layout, w.descr])
+        do_step(ch, ctx, w, check=step >= getattr(ch, 'verified_steps', 0))
+    finish(ctx, w)
     return w
+
+
+def do_step(ch, ctx, w, check=True):
+    """One operation: draw it from the operations enabled in the current state, apply, walk, book-keep."""
+    P = w.P
+    op = pick_op(ch, w, P)
+    tag = known_region(w, op)
+    if tag is not None and not P['risky']:
+        for attempt in range(3):
+            ctx.cell('avoided:' + tag)
+            op = pick_op(ch, w, P)
+            tag = known_region(w, op)
+            if tag is None: break
+        else:
+            return
+    ctx.cell('op:' + op[0])
+    ucls = w.cls[op[1]] if len(op) > 1 and isinstance(op[1], int) and op[0] not in ('reconnect', 'save') else None
+    site, region = apply_op(ctx, w, op)
+    w.descr.append([op[0], ucls, region])
+    w.discover()
+    if check:      # (exhaustive engine: a prefix is checked when it is executed as a sequence of its own)
+        check_world(ctx, w, site, region)
+    w.track_moves()
+
+
+def finish(ctx, w):
+    if w.moved:
+        ctx.nontriv([w.layout, w.descr])
 
 
 def prop_history(ch, ctx):
@@ -994,85 +1006,143 @@ def all_ops(w, P):
         prefix = taken[:j] + [taken[j] + 1]
 
 
+# The mutable state of the code under test, as listed in the property's anchors: the two port lists of every unit
+# and the two pointers of every stream.  The exhaustive engine builds a state by replaying its sequence from scratch,
+# snapshots these fields, and restores them after trying each operation (4x cheaper than re-running the prefix).
+# Guards: the slot layout is asserted, the state key after restoring must equal the one before, every SPOT-th
+# sequence is also re-run from scratch through the validating chooser and must reach the same state, and every
+# failure is re-run from scratch by the runner before it is reported.
+SPOT = 499
+_SLOTS_OK = None
+
+
+def _assert_slots():
+    global _SLOTS_OK
+    if _SLOTS_OK is None:
+        ok = (set(AS.__slots__) == {'_ID', '_source', '_sink', '_thermo', 'port'}
+              and set(MS.__slots__) == {'_source', '_sink'}
+              and set(nw.StreamSequence.__slots__) == {'_size', '_streams', '_fixed_size'}
+              and set(nw.AbstractInlets.__slots__) == {'_sink'} and set(nw.AbstractOutlets.__slots__) == {'_source'})
+        if not ok:
+            raise HarnessError('port lists / streams have state beyond (_streams, _source, _sink): snapshotting is unsafe')
+        _SLOTS_OK = True
+
+
+def snapshot(w):
+    lists = [(seq, list(seq._streams)) for u in w.units for seq in (u._ins, u._outs)]
+    objs = {id(s): s for s in w.reals}
+    for _, L in lists:
+        for o in L: objs[id(o)] = o
+    ptrs = [(o, o._source, o._sink) for o in objs.values()]
+    book = (len(w.reals), dict(w.last[0]), dict(w.last[1]), w.moved, len(w.descr), list(w.saved))
+    return lists, ptrs, book
+
+
+def restore(w, snap):
+    lists, ptrs, (nreal, l0, l1, moved, ndescr, saved) = snap
+    for seq, L in lists: seq._streams = list(L)
+    for o, a, b in ptrs:
+        o._source = a; o._sink = b
+    if len(w.reals) != nreal:
+        del w.reals[nreal:]
+        w._ids = {id(x) for x in w.reals}
+    w.last = [dict(l0), dict(l1)]; w.moved = moved
+    del w.descr[ndescr:]
+    w.saved = list(saved)
+
+
 def prop_bfs(_, ctx):
-    import sys
+    import os
     depth = 3 if ctx.tier == 'quick' else 4
-    env_depth = __import__('os').environ.get('C18_BFS_DEPTH')
-    if env_depth: depth = int(env_depth)
+    if os.environ.get('C18_BFS_DEPTH'): depth = int(os.environ['C18_BFS_DEPTH'])
     if _TH is None: setup(ctx)
+    _assert_slots()
+    from vlib.runner import canon
     done = getattr(ctx, 'exhaustive_done', None)
     if done is None:
         done = ctx.exhaustive_done = {}
-    P = {'small': True, 'risky': True}
     name_hist = 'history'
     saved_name = ctx.cur_name
     ctx.cur_name = name_hist          # non-trivial keys are those of the history check
     stats = ctx.per_prop.setdefault('bfs', {'evaluations': 0, 'rejected': 0, 'skipped_time': 0})
 
-    def execute(cfg, steps):
+    def full_log(cfg, steps):
         log = [['universe', cfg], ['risky', True], ['nsteps', len(steps)]]
-        for s in steps: log.extend(s)
-        ctx.evaluations += 1
-        stats['evaluations'] += 1
-        try:
-            tr = TrustedReplay(log)
-            tr.verified_steps = len(steps) - 1
-            w = run_history(tr, ctx)
-            if len(steps) == depth and (len(ctx.samples) < 2 or (len(ctx.samples) < 4 and ctx.evaluations % 9973 == 0)):
-                ctx.samples.append({'check': name_hist, 'case': log})
-            return w, log
-        except Violation as v:
-            kid = ctx.known_id(v.sig)
-            if kid is not None:
-                ctx.known_tally[kid] = ctx.known_tally.get(kid, 0) + 1
-            else:
-                from vlib.runner import canon
-                size = len(canon(log))
-                old = ctx.failures.get(v.sig)
-                if old is None or size < old['size']:
-                    ctx.failures[v.sig] = {'check': name_hist, 'case': log, 'msg': v.msg, 'size': size, 'sig': v.sig}
-            return None, log
+        for x in steps: log.extend(x)
+        return log
 
-    for cfg in ('A', 'B'):
+    def record(v, log):
+        kid = ctx.known_id(v.sig)
+        if kid is not None:
+            ctx.known_tally[kid] = ctx.known_tally.get(kid, 0) + 1
+            return
+        size = len(canon(log))
+        old = ctx.failures.get(v.sig)
+        if old is None or size < old['size']:
+            ctx.failures[v.sig] = {'check': name_hist, 'case': log, 'msg': v.msg, 'size': size, 'sig': v.sig}
+
+    def from_scratch(cfg, steps, validating=False):
+        log = full_log(cfg, steps)
+        ch = Chooser(None, [list(x) for x in log]) if validating else TrustedReplay(log)
+        ch.verified_steps = len(steps)          # every prefix was checked when it was executed as a sequence
+        return run_history(ch, ctx)
+
+    for cfg, cfg_depth in (('A', depth), ('B', depth)):
         ctx.cell(f'bfs:cfg={cfg}')
-        w0, _ = execute(cfg, [])
-        if w0 is None:
-            continue
-        seen = {state_key(w0)}
-        root = all_ops(w0, P)
-        done[f'cfg{cfg}:root_ops'] = len(root) if ctx.shard == 0 else 0
-        frontier = []      # sequences (lists of leaves) that reached a new state and still have depth left
-        nseq = 0
-        for i, leaf in enumerate(root):
-            if i % ctx.nshards != ctx.shard: continue
-            w, _ = execute(cfg, [leaf]); nseq += 1
-            if w is None or depth < 2: continue
-            key = state_key(w)
-            if key in seen: continue
-            seen.add(key)
-            frontier.append([leaf])
-        level = 1
-        while frontier and level < depth:
+        nseq = nstates = nspot = 0
+        seen = set()
+        frontier = [[]]
+        level = 0
+        while frontier and level < cfg_depth:
             if not ctx.time_left():
                 stats['skipped_time'] += 1
                 break
             level += 1
+            last = level == cfg_depth
             nxt = []
             for steps in frontier:
-                ctx.evaluations -= 1; stats['evaluations'] -= 1      # re-execution of a counted sequence
-                w, _ = execute(cfg, steps)
-                for leaf in all_ops(w, P):
-                    seq = steps + [leaf]
-                    w, _ = execute(cfg, seq); nseq += 1
-                    if w is None or level >= depth: continue
-                    key = state_key(w)
-                    if key in seen: continue
-                    seen.add(key)
-                    nxt.append(seq)
+                w = from_scratch(cfg, steps)
+                key0 = state_key(w)
+                if level == 1:
+                    seen.add(key0)
+                    check_world(ctx, w, 'construct', 'initial')
+                leaves = all_ops(w, w.P)
+                if level == 1:
+                    done[f'cfg{cfg}:root_ops'] = len(leaves) if ctx.shard == 0 else 0
+                    leaves = [x for i, x in enumerate(leaves) if i % ctx.nshards == ctx.shard]
+                nstates += 1
+                snap = snapshot(w)
+                for leaf in leaves:
+                    nseq += 1; ctx.evaluations += 1; stats['evaluations'] += 1
+                    try:
+                        do_step(TrustedReplay(leaf), ctx, w)
+                        finish(ctx, w)
+                    except Violation as v:
+                        record(v, full_log(cfg, steps + [leaf]))
+                        restore(w, snap)
+                        continue
+                    spot = nseq % SPOT == 0
+                    if spot or not last:
+                        key = state_key(w)
+                        if spot:
+                            nspot += 1
+                            w2 = from_scratch(cfg, steps + [leaf], validating=True)
+                            if state_key(w2) != key:
+                                raise HarnessError('snapshot/restore execution diverged from the from-scratch replay of '
+                                                   f'{full_log(cfg, steps + [leaf])}')
+                        if not last and key not in seen:
+                            seen.add(key)
+                            nxt.append(steps + [leaf])
+                    if last and (len(ctx.samples) < 2 or (len(ctx.samples) < 4 and nseq % 9973 == 0)):
+                        ctx.samples.append({'check': name_hist, 'case': full_log(cfg, steps + [leaf])})
+                    restore(w, snap)
+                if state_key(w) != key0:
+                    raise HarnessError('state not restored after expanding ' + str(full_log(cfg, steps)))
             frontier = nxt
-        done[f'cfg{cfg}:sequences_executed'] = done.get(f'cfg{cfg}:sequences_executed', 0) + nseq
-        done[f'cfg{cfg}:states_expanded'] = done.get(f'cfg{cfg}:states_expanded', 0) + len(seen)
-        ctx.cell(f'bfs:depth={depth}')
+        for k, v in ((f'cfg{cfg}:sequences_executed', nseq), (f'cfg{cfg}:states_expanded', nstates),
+                     (f'cfg{cfg}:spot_checked_from_scratch', nspot)):
+            done[k] = done.get(k, 0) + v
+        ctx.cell(f'bfs:cfg={cfg},depth={cfg_depth}')
     ctx.cur_name = saved_name
 
 
